@@ -16,8 +16,8 @@ EXPLANATION = (
 
 
 def check(run):
-    rules_save(run, 'C06')
-    rules_restore(run, 'C06')
+    run.guard(rules_save, run, 'C06')
+    run.guard(rules_restore, run, 'C06')
 
 
 def rules_save(run, P='C06', ids=('.1', '.2', '.3')):
